@@ -12,7 +12,7 @@ let perr_str = function
 let cerr_str = function
   | EParse e -> perr_str e
   | EPanicRecovered -> "recovered"
-  | EHttp _ -> "http"
+  | EHttp c -> Printf.sprintf "http:%d" (int_of_n c)
 
 let args_str (args : n list list) : string =
   match args with
@@ -22,7 +22,7 @@ let args_str (args : n list list) : string =
 let kind_str = function Redis -> "0" | Tile38 -> "1" | Telnet -> "2"
 let ckind_str = function KRedis -> "0" | KNative -> "1" | KTelnet -> "2" | KHttp -> "9999"
 
-let http_stub (_ : n list) : cres = CErr (EHttp N0)
+let http_stub (p : n list) : cres = http_parse p
 
 let msgs_str (ms : msg list) : string =
   match ms with
@@ -63,6 +63,7 @@ let handle (toks : string list) : string =
   | ["rc"; fixed; p] ->
       let f = if fixed = "1" then read_cmd_fixed http_stub else read_cmd http_stub in
       cres_str (f (bytes_of_hex p))
+  | ["http"; p] -> cres_str (http_parse (bytes_of_hex p))
   | "conn" :: fixed :: chunks ->
       let f = if fixed = "1" then read_cmd_fixed http_stub else read_cmd http_stub in
       (match conn_run f (List.map bytes_of_hex chunks) [] [] with
